@@ -486,6 +486,16 @@ impl Node {
         })
     }
 
+    #[cfg(not(feature = "stateless"))]
+    pub fn wrap_rln(r: rln::public::RLN, depth: usize) -> Node {
+        Node { kind: "rln".into(), sut: Sut::Rln(Box::new(r)), model: IdealTree::new(depth), path: None, reopened: false, relaxed: BTreeSet::new() }
+    }
+
+    #[cfg(feature = "pm")]
+    pub fn wrap_pm(t: PmTree, depth: usize) -> Node {
+        Node { kind: "pm".into(), sut: Sut::Pm(t), model: IdealTree::new(depth), path: None, reopened: false, relaxed: BTreeSet::new() }
+    }
+
     pub fn persistent(&self) -> bool {
         self.path.is_some()
     }
